@@ -369,16 +369,13 @@ class Env:
         if task is None or task.done():
             return [], None
         names, cur = [], task.get_coro()
-        while cur is not None:
+        while cur is not None and (hasattr(cur, "cr_code") or hasattr(cur, "gi_code")):
+            names.append(getattr(cur, "__qualname__", type(cur).__name__))
             nxt = getattr(cur, "cr_await", None)
             if nxt is None:
                 nxt = getattr(cur, "gi_yieldfrom", None)
-            if hasattr(cur, "cr_code") or hasattr(cur, "gi_code"):
-                names.append(getattr(cur, "__qualname__", type(cur).__name__))
-            if nxt is None or asyncio.isfuture(nxt):
-                return names, nxt
             cur = nxt
-        return names, None
+        return names, getattr(task, "_fut_waiter", None)
 
     def close(self):
         self.loop.close()
